@@ -12,6 +12,7 @@ import (
 	"encoding/json"
 	"errors"
 	"fmt"
+	"runtime"
 	"sort"
 	"strings"
 	"sync"
@@ -304,6 +305,15 @@ func (rs *runState) use(h *gorm.DB, t int, op Op, inTx bool) error {
 	}
 	if err != nil {
 		r.Err = err.Error()
+		if strings.Contains(r.Err, "bad connection") {
+			// gorm's ErrBadConn branch has just started `go stmt.Close()`, a goroutine
+			// outside the scheduler: give it (real) time to finish, so that what later
+			// operations see of the evicted statement does not depend on a race
+			for i := 0; i < 4; i++ {
+				runtime.Gosched()
+				time.Sleep(100 * time.Microsecond)
+			}
+		}
 	}
 	r.Return = rs.e.Drv.Tick()
 	rs.recs[t] = append(rs.recs[t], r)
@@ -709,16 +719,14 @@ func (p Prop) Run(ci interface{}, focus *core.Violation) *core.Outcome {
 		// finding); one that started after every Reset and eviction had returned
 		// must not: the closed statement was left in the cache.
 		detail, key := "", "closed_error_without_close"
-		var ends []int64 // return times of Resets and of operations in which an ErrBadConn fault fired
+		var ends []int64 // return times of Resets and of operations that returned ErrBadConn (they evicted)
 		for _, q := range res.recs {
 			if q.Kind == "reset" {
 				ends = append(ends, q.Return)
 				continue
 			}
-			for _, f := range c.Faults {
-				if seq := res.fired[f.ID]; f.Type == "bad_conn" && seq != 0 && q.Call <= seq && seq <= q.Return {
-					ends = append(ends, q.Return)
-				}
+			if strings.Contains(q.Err, "bad connection") {
+				ends = append(ends, q.Return) // this operation went through an ErrBadConn branch (eviction + go stmt.Close())
 			}
 		}
 		for _, r := range res.recs {
